@@ -1,4 +1,5 @@
 import NA.Model.GateProgs
+import NA.Model.GateConfig
 import NA.Spec.Gate
 /-
 Driver logic shared by `nadrv-c06` and `nadrv-c11`: one scenario per line → the model's run.
@@ -18,6 +19,8 @@ Input (TAB separated):
       reply: T:<text> | H:<enabled>,<mode>,<state> | F:<hostname>|<vsys>=<display>,… |
              G:<id>,<id>,…|<cursor> (one page of a listing) | !:<why>
 A line `re` TAB <pattern> TAB <text> asks the regexp matcher: answer 1 | 0 | PARSE.
+A line `cfg` TAB <configuration file text> asks the model of LoadConfig: ok:- | ok:<regexp source> | error:<kind>.
+Field 4 may also be `cfg:<configuration file text>`: LoadConfig is run first (model `runWithConfig`).
 Output:
   exit=<n> diag=<0|1> errU=<k> warn=<k> status=<…> trace=<items joined by U+001F> kinds=<one letter per item>
   item: C | W | P | L:<literal> | A:<prefix>|<arg> | X:<command>
@@ -118,11 +121,29 @@ def lower (s : String) : String := s.map Char.toLower
 
 def answer (line : String) : String :=
   match line.splitOn "\t" with
+  | ["cfg", txt] =>
+    match Config.loadConfig (fun s => (Rx.parse s).isSome) (unesc txt) with
+    | .error e => "error:" ++ e
+    | .ok none => "ok:-"
+    | .ok (some src) => "ok:" ++ esc src
   | ["re", pat, txt] =>
     match Rx.parse (unesc pat) with
     | none => "PARSE"
     | some r => if r.search (unesc txt).toList then "1" else "0"
-  | bs :: mode :: name :: names :: banner :: vsys :: fault :: plan :: rest =>
+  | bs :: mode :: name :: names :: banner0 :: vsys :: fault :: plan :: rest =>
+    -- the configuration file first, if it is given
+    let loaded : Except String String :=
+      if banner0.startsWith "cfg:" then
+        match Config.loadConfig (fun s => (Rx.parse s).isSome) (unesc (banner0.drop 4).toString) with
+        | .error e => .error e
+        | .ok none => .ok "-"
+        | .ok (some src) => .ok src
+      else .ok banner0
+    match loaded with
+    | .error e =>
+      let f := Config.configErrorSt e
+      s!"exit={f.exit} diag=1 errU=0 warn=0 status={showStatus f.status} trace= kinds="
+    | .ok banner =>
     match parseBackend bs, (if banner == "-" then some none else (Rx.parse banner).map some) with
     | none, _ => "bad-backend"
     | _, none => "bad-regexp"
